@@ -169,4 +169,34 @@ theorem branch_reachable (es : Edges) (df : Nat → List Nat) (start x : Nat) (h
   · exact h1.2
   · exact h1
 
+theorem rev_filter (es : Edges) (idom : Option Nat) :
+    (rev es).filter (fun e => some e.1 != idom) = rev (es.filter (fun e => some e.2 != idom)) := by
+  unfold rev
+  induction es with
+  | nil => rfl
+  | cons e r ih =>
+    simp only [List.map_cons, List.filter_cons]
+    by_cases h : (some e.2 != idom) = true
+    · simp only [h, if_true, List.map_cons, ih]
+    · simp only [h, if_false, ih]; rfl
+
+/-- the walk of `get_join_conditions` finds the blocks from which a predecessor of `j` can be reached without entering the
+    immediate dominator of `j` — the blocks on the last stretch of a path to `j`, after it has left the dominator for the last
+    time; which predecessor such a path arrives through is decided by the if statements among them -/
+theorem mem_joinWalk (es : Edges) (idom : Option Nat) (j x : Nat) :
+    x ∈ joinWalk es idom j ↔ ∃ p, (p, j) ∈ es ∧ Reach (es.filter (fun e => some e.2 != idom)) x p := by
+  unfold joinWalk
+  rw [closure_spec, rev_filter]
+  constructor
+  · intro ⟨p, hp, hr⟩
+    obtain ⟨e, he, hpe⟩ := List.mem_map.mp hp
+    have h2 : e.2 = j := by simpa using (List.mem_filter.mp he).2
+    refine ⟨p, ?_, (reach_rev _ _ _).mp hr⟩
+    obtain ⟨a, b⟩ := e
+    simp only at hpe h2
+    subst hpe; subst h2
+    exact (List.mem_filter.mp he).1
+  · intro ⟨p, hp, hr⟩
+    exact ⟨p, List.mem_map.mpr ⟨(p, j), List.mem_filter.mpr ⟨hp, by simp⟩, rfl⟩, (reach_rev _ _ _).mpr hr⟩
+
 end Circomspect.CfgReach
